@@ -244,6 +244,14 @@ theorem gen_matches_record_flags :
       ["p.fieldsIsTrueStr = p.fieldsIsTrueStr[:0]", "for range p.fields { p.fieldsIsTrueStr = append(p.fieldsIsTrueStr, false) }"] :=
   ⟨gen_matches_record.1, gen_matches_record.2.1⟩
 
+/-- CONVFMT / OFMT are held in exactly two fields, `toString` converts with the current CONVFMT field, and `resetVars`
+resets both (no derived cached copy that a reset could forget) -/
+theorem gen_matches_formats :
+    Generated.C05Cmp.interpFormatFields = ["convertFormat", "outputFormat"] ∧
+    Generated.C05Cmp.src_toString = "{ return v.str(p.convertFormat) }" ∧
+    Generated.C05Cmp.src_resetVars_formats = ["p.convertFormat = \"%.6g\"", "p.outputFormat = \"%.6g\""] :=
+  ⟨rfl, rfl, rfl⟩
+
 /-! ## truth test -/
 
 /-- the truth value of input-derived text: its number (≠ 0) when it looks entirely like a number, else non-emptiness -/
